@@ -394,12 +394,35 @@ func c19Producers(r *Run, db *SiteDB) {
 			continue
 		}
 		okG := false
+		info := fi.Pkg.TypesInfo
 		for _, s := range db.ByFunc[fi] {
 			if s.Callee == "p9.File.GetAttr" {
-				okG = true
+				// the receiver, with single-assignment locals replaced by what they stand for
+				sel, ok := unparen(s.Call.Fun).(*ast.SelectorExpr)
+				if !ok {
+					continue
+				}
+				fromMount := func(e ast.Expr) bool {
+					return strings.Contains(strings.ReplaceAll(s.Res.str(e), " ", ""), ".fs.mounts[")
+				}
+				// ... or a variable that only ever holds a mounted file or what walking from it returned
+				recvObj := objOf(info, sel.X)
+				if fromMount(sel.X) || recvObj != nil && allDefsAre(info, fi, sel.X, func(e ast.Expr) bool {
+					if fromMount(e) {
+						return true
+					}
+					c, isCall := unparen(e).(*ast.CallExpr)
+					if !isCall || calleeKey(info, c) != "p9.File.Walk" {
+						return false
+					}
+					csel, isSel := unparen(c.Fun).(*ast.SelectorExpr)
+					return isSel && objOf(info, csel.X) == recvObj
+				}) {
+					okG = true
+				}
 			}
 		}
-		r.check(okG && strings.Contains(norm(fi.Decl.Body), ".fs.mounts["), "r5", "composefs."+nm+" reports the mounted file's GetAttr QID", fi.Decl.Pos(), "GetAttr of r.fs.mounts[name]", "composefs."+nm+" does not derive the entry's QID from GetAttr of the mounted file")
+		r.check(okG, "r5", "composefs."+nm+" reports the mounted file's GetAttr QID", fi.Decl.Pos(), "GetAttr of r.fs.mounts[name]", "composefs."+nm+" does not derive the entry's QID from GetAttr of the mounted file")
 	}
 	// qidTransformFile overrides every QID-returning File method
 	p9 := r.L.Pkg("p9")
